@@ -11,6 +11,8 @@ From IE Require Import Lib.Tbl Lib.C05Lib Lib.C02Lib Gen.Codepage Gen.Formats Ge
   Model.C05XBin Model.C05Idf Model.C05Tundra Model.C02Loaders Model.C02Icy Model.C02Dispatch
   Proofs.C02Proofs Proofs.C02IcyProofs Proofs.C02DispatchProofs.
 From IE Require Model.Sauce Proofs.SauceProofs Props.C11 Lib.C17Lib Model.Font Model.Tdf Props.C17 Model.PaletteFiles.
+From IE Require Import Model.C02Text Proofs.C02TextProofs.
+From IE Require Model.TermCore Model.FileCore Gen.FileAnsiTok Gen.FileEmu Gen.FilePetscii Proofs.FileInv Gen.FileAnsiSafeW Gen.FileEmuSafeW Model.FileLoad Proofs.FileLoadProofs.
 Import ListNotations.
 
 (* ------------------------------------------------------------------------------ stand-alone extractors (re-exported) *)
@@ -126,6 +128,110 @@ Theorem ext_table_ok :
   = [FAnsi; FAnsi; FAnsi; FAnsi; FIcy; FIdf; FBin; FXb; FXb; FTnd; FPcb; FAvt; FAsc; FAdf; FMsg; FRen; FRen; FRen; FSeq; FAta; FAnsi; FAnsi; FAnsi].
 Proof. exact ext_table_sweep. Qed.
 
+(* ------------------------------------------------------------------------------ the text loaders (extension x02) *)
+(* The hypothesis of `from_bytes_total` is discharged here.  Models: Model/FileCore.v (the terminal core on a buffer with
+   is_terminal_buffer = false), Gen/FileAnsiTok.v / FileEmu.v / FilePetscii.v (C01's parser models, generated over that core),
+   Model/FileLoad.v (the eight loaders, parse_with_parser).  Invariant: Proofs/FileInv.v
+     W t := 1 <= tw t /\ 1 <= bw t /\ origin_m t = false /\ mnn (mtb t) /\ mnn (mlr t) /\ tabs >= 0 /\ 0 <= cx t /\ 0 <= cy t
+   (no condition on any height: a SAUCE record may give the buffer height 0). *)
+
+(* Buffer::new + set_sauce(sauce, true) for EVERY record with a non-negative width (every record SauceData::extract returns:
+   Proofs/C02DispatchProofs.extract_width_nonneg), any rows, any caret colours: the loader starts in a W state *)
+Theorem file_initial_state : forall w0 h0 s rows fg bg ice, (1 <= w0)%Z -> FileLoadProofs.fsauce_nonneg s ->
+  FileInv.W (FileLoad.file_term w0 h0 s rows fg bg ice).
+Proof. exact FileLoadProofs.file_term_W. Qed.
+
+(* ansi::Parser::print_char on a file buffer: every parser state, every character, any macro table, any nesting bound -
+   an action or an error value on a W state again; never a panic; the nesting overflow only while a macro is stored *)
+Theorem file_ansi_char_total : forall fuel m ch, FileInv.W (FileAnsiTok.tm m) ->
+  match FileAnsiTok.astep fuel m ch with
+  | FileAnsiTok.OOk m' | FileAnsiTok.OErr m' => FileInv.W (FileAnsiTok.tm m')
+  | FileAnsiTok.OPanic _ => False
+  | FileAnsiTok.ODiverge => FileAnsiTok.macros (FileAnsiTok.ps m) <> []
+  end.
+Proof. exact FileAnsiSafeW.astep_char_total. Qed.
+
+(* ANSI, Avatar, PCBoard, Ctrl-A, Renegade on a file buffer, EVERY stream from EVERY W state: it ends in a W state, or it stops
+   in the macro-nesting overflow at a character processed with a macro stored *)
+Theorem file_wrappers_stream_total : forall e cs m, FileEmuSafeW.wrapper e = true -> FileInv.W (FileEmu.mt m) ->
+  (exists m', FileEmu.run e m cs = FileEmu.RunOk m' /\ FileInv.W (FileEmu.mt m')) \/
+  (FileEmu.run e m cs = FileEmu.RunDiverge /\
+   exists pre c post m', cs = pre ++ c :: post /\ FileEmu.run e m pre = FileEmu.RunOk m' /\ FileEmuSafeW.Stored m').
+Proof. exact FileEmuSafeW.run_np. Qed.
+
+(* ASCII, ATASCII, PETSCII on a file buffer: every stream from every W state ends in a W state *)
+Theorem file_ascii_stream_total : forall cs m, FileInv.W (FileEmu.mt m) ->
+  exists m', FileEmu.run FileEmu.EAscii m cs = FileEmu.RunOk m' /\ FileInv.W (FileEmu.mt m').
+Proof. exact FileLoadProofs.run_ascii_np. Qed.
+Theorem file_atascii_stream_total : forall cs m, FileInv.W (FileEmu.mt m) ->
+  exists m', FileEmu.run FileEmu.EAtascii m cs = FileEmu.RunOk m' /\ FileInv.W (FileEmu.mt m').
+Proof. exact FileLoadProofs.run_atascii_np. Qed.
+Theorem file_petscii_stream_total : forall cs m, FileInv.W (FileEmu.mt m) ->
+  exists m', FilePetscii.run_petscii m cs = FileEmu.RunOk m' /\ FileInv.W (FileEmu.mt m').
+Proof. exact FileLoadProofs.run_petscii_np. Qed.
+
+(* the sixel epilogue of parse_with_parser (update_sixel_threads, one Image layer per sixel): no panic site is reachable
+   when there is no sixel, or font 0 is at least 1 x 1 and every sixel's pixel rectangle lies inside i32 (SixelOk) *)
+Theorem sixel_epilogue_total : forall fw fh done, FileLoadProofs.SixelOk fw fh done ->
+  exists layers, FileLoad.sixel_epilogue fw fh done = TermCore.ROk layers.
+Proof. exact FileLoadProofs.sixel_epilogue_ok. Qed.
+
+(* ALL eight text loaders (ans/ice/diz/unknown, avt, pcb, asc, msg, an1-an9, seq, ata), every SAUCE record, every character
+   list: a buffer - or, for the five loaders with an ANSI parser inside, the macro-nesting overflow; never a panic *)
+Theorem text_load_total : forall f s fw fh done serr cs, FileLoadProofs.fsauce_nonneg s -> FileLoadProofs.SixelOk fw fh done ->
+  match FileLoad.text_load f s fw fh done serr cs with
+  | FileLoad.TOk _ _ | FileLoad.TErr => True
+  | FileLoad.TPanic _ => False
+  | FileLoad.TOverflow => FileLoadProofs.text_overflow f s cs
+  end.
+Proof. exact FileLoadProofs.text_load_total_proof. Qed.
+(* ASCII, PETSCII (seq) and ATASCII files: no exception *)
+Theorem text_load_no_ansi_total : forall f s fw fh done serr cs,
+  (f = FileLoad.TAsc \/ f = FileLoad.TSeq \/ f = FileLoad.TAta) -> FileLoadProofs.fsauce_nonneg s -> FileLoadProofs.SixelOk fw fh done ->
+  (exists t l, FileLoad.text_load f s fw fh done serr cs = FileLoad.TOk t l) \/ FileLoad.text_load f s fw fh done serr cs = FileLoad.TErr.
+Proof. exact FileLoadProofs.text_load_standalone_total. Qed.
+
+(* Known 2 (= C01-stackoverflow:invoke_macro_by_id reached through a file): the content stores a macro that invokes itself.
+   Known 3 (C02-sixel-font0, new): a sixel next to a font 0 that a `CTerm:Font:0:` DCS string replaced by one of width / height 0,
+   >= 2^30 or >= 2^31 - the epilogue divides by the font size, multiplies the cursor by it, makes a layer of that many cells. *)
+Definition KnownC02_2 := FileMacroCrash.
+Definition KnownC02_3 (fw fh : Z) (done : list FileLoad.sixel) : Prop := ~ FileLoadProofs.SixelOk fw fh done.
+Theorem known_2_witness : FileLoad.text_load FileLoad.TAns None 8 16 [] false FileLoadProofs.macro_bomb = FileLoad.TOverflow.
+Proof. exact FileLoadProofs.macro_overflow_witness. Qed.
+Theorem known_3_witness :
+  FileLoad.sixel_epilogue 0 16 [FileLoad.mkSx 0 0 4 6] = TermCore.RPanic FileLoad.SITE_SIXEL_DIV /\
+  FileLoad.sixel_epilogue 1073741824 16 [FileLoad.mkSx 2 0 4 6] = TermCore.RPanic FileLoad.SITE_SIXEL_MUL /\
+  FileLoad.sixel_epilogue (-1) (-1) [FileLoad.mkSx 0 0 4 6] = TermCore.RPanic FileLoad.SITE_LAYER_NEW.
+Proof.
+  exact (conj FileLoadProofs.sixel_div_zero_witness (conj FileLoadProofs.sixel_mul_overflow_witness FileLoadProofs.sixel_negative_layer_witness)).
+Qed.
+
+(* the hypothesis of from_bytes_total, for the model of the text loaders: for every decoder `conv` of the content bytes and
+   every sane sixel oracle, a text loader that "panics" is in the macro class *)
+Theorem text_load_hypothesis_discharged : forall conv sixels f content s,
+  SaneOracle sixels -> sauce_nonneg s -> text_load_model conv sixels f content s = OPanic -> MacroCrash conv f content s.
+Proof. exact text_load_model_total. Qed.
+
+(* Buffer::from_bytes WITHOUT a hypothesis on the text loaders: for every date parser, decoder, container oracle, payload
+   decoder, every extension and every byte string - outside Known 2 (and with a sane sixel oracle = outside Known 3) *)
+Theorem from_bytes_total_unconditional :
+  forall (dp : list N -> option Sauce.ymd) (conv : list N -> list Z) (sixels : sixel_oracle)
+         (icy_chunks : list N -> option (list (kind * list N))) (font_ok pal_ok sauce_ok : list N -> bool),
+  SaneOracle sixels -> forall ext bytes, ~ KnownC02_2 dp conv ext bytes ->
+  from_bytes dp (text_load_model conv sixels) icy_chunks font_ok pal_ok sauce_ok ext bytes <> OPanic.
+Proof. exact from_bytes_total_unconditional. Qed.
+(* the same, positively: a crash of from_bytes IS a macro crash of a text loader *)
+Theorem from_bytes_crash_is_macro :
+  forall dp conv sixels icy_chunks font_ok pal_ok sauce_ok, SaneOracle sixels -> forall ext bytes,
+  from_bytes dp (text_load_model conv sixels) icy_chunks font_ok pal_ok sauce_ok ext bytes = OPanic -> KnownC02_2 dp conv ext bytes.
+Proof. exact from_bytes_crash_is_macro. Qed.
+(* extensions that resolve to a loader without an ANSI parser inside (asc, seq, ata and the six binary formats): no exception *)
+Theorem from_bytes_no_ansi_total :
+  forall dp conv sixels icy_chunks font_ok pal_ok sauce_ok, SaneOracle sixels -> forall ext bytes,
+  (fmt_of_ext ext = FAsc \/ fmt_of_ext ext = FSeq \/ fmt_of_ext ext = FAta \/ is_text (fmt_of_ext ext) = false) ->
+  from_bytes dp (text_load_model conv sixels) icy_chunks font_ok pal_ok sauce_ok ext bytes <> OPanic.
+Proof. exact from_bytes_no_ansi_total. Qed.
+
 (* ------------------------------------------------------------------------------ non-vacuity / regression witnesses *)
 (* the inputs that panicked before the fixes: C05's models of the old code say Panic, the models of the fixed code Err *)
 Example tnd_truncated_before : load_tnd [24; 84; 85; 78; 68; 82; 65; 50; 52; 6]%N None = Panic 6.
@@ -143,4 +249,20 @@ Proof. eexists. vm_compute. reflexivity. Qed.
 Example icy_string_cut : read_str [100; 0; 0; 0; 97]%N = Ok None.
 Proof. vm_compute. reflexivity. Qed.
 Example icy_layer_cut : dec_layer [1; 0; 0; 0; 76; 0; 0; 0]%N = Err 1.
+Proof. vm_compute. reflexivity. Qed.
+
+(* text loaders: the inputs of fix d135f2b (cursor up in row 0, then insert / delete line) load; a SAUCE record of height 0 is fine;
+   `A LF B` gives two rows; a file that is only a macro bomb is the overflow class *)
+Example ans_cursor_up_insert_line :
+  match FileLoad.text_load FileLoad.TAns None 8 16 [] false [27; 91; 65; 27; 91; 76]%Z with FileLoad.TOk t [] => TermCore.bh t = 1%Z | _ => False end.
+Proof. vm_compute. reflexivity. Qed.
+Example ata_cursor_up_delete_line :
+  match FileLoad.text_load FileLoad.TAta None 8 16 [] false [28; 156]%Z with FileLoad.TOk t [] => TermCore.bh t = 24%Z | _ => False end.
+Proof. vm_compute. reflexivity. Qed.
+Example ans_sauce_height_0 :
+  match FileLoad.text_load FileLoad.TAns (Some (FileLoad.mkFS 0 0 true)) 8 16 [] false [65; 10; 66]%Z with
+  | FileLoad.TOk t [] => (TermCore.bw t, TermCore.bh t, TermCore.th t) = (80, 2, 0)%Z | _ => False end.
+Proof. vm_compute. reflexivity. Qed.
+Example ans_with_sixel_layer :
+  match FileLoad.text_load FileLoad.TAns None 8 16 [FileLoad.mkSx 0 0 4 6] false [65]%Z with FileLoad.TOk t [(1, 1)%Z] => TermCore.bh t = 1%Z | _ => False end.
 Proof. vm_compute. reflexivity. Qed.
